@@ -221,14 +221,19 @@ def r3_stateless(ctx):
                     if isinstance(t, ast.Attribute) and not (isinstance(v, ast.Name) and v.id in params):
                         derived_ok = False
     reads = {a.attr for a in ast.walk(f.node) if isinstance(a, ast.Attribute) and isinstance(a.ctx, ast.Load) and isinstance(a.value, ast.Name) and a.value.id == 'self'}
-    ok = not stores and not gl and reads <= {'min_length', 'max_length', 'alignment', 'MIN_LENGTH', 'MAX_LENGTH'} and reads <= cfg_attrs | {'alignment', 'MIN_LENGTH', 'MAX_LENGTH'} and derived_ok
+    class_consts = set()
+    for k in corpus.mro(ci):
+        for st in k.node.body:
+            if isinstance(st, ast.Assign) and isinstance(st.value, ast.Constant):
+                class_consts |= {t.id for t in st.targets if isinstance(t, ast.Name)}
+    ok = not stores and not gl and reads <= cfg_attrs | class_consts and derived_ok
     ctx.check(
         ok,
         'C10.R3',
         f'{func_label(f)}|adapter-keeps-no-state',
         loc(f, f.node),
         '__call__ assigns nothing on self and reads only the constructor-supplied bounds: buffer and native chunker are created per call',
-        f'__call__ keeps state on the adapter object across calls (stores: {[a.attr for a in stores]}, reads: {sorted(reads - {"min_length", "max_length", "alignment"})}): '
+        f'__call__ keeps state on the adapter object across calls (stores: {[a.attr for a in stores]}, reads: {sorted(reads - cfg_attrs - class_consts)}): '
         'bytes or a keyed native chunker left by one run leak into the next stream chunked with the same object',
     )
     # buffer and native object are locals created inside the call
@@ -244,28 +249,86 @@ def r4_prefix(ctx):
     ctx.floor('C10.R4', 'yield in __call__', len(ys))
     cut_calls = [c for c in calls_in(f.node) if isinstance(c.func, ast.Attribute) and c.func.attr == 'next_cut']
     ctx.floor('C10.R4', 'next_cut call', len(cut_calls))
-    buf = cut_calls[0].args[0].id if isinstance(cut_calls[0].args[0], ast.Name) else None
-    if buf is None:
-        raise AnalysisError('C10.R4: next_cut is not called on a named buffer')
+    # The window handed to next_cut is `B` or `B[lo:]` (B a local buffer or a memoryview of it, lo a linear
+    # expression over locals).  Two consumption idioms are recognised: removing the emitted prefix
+    # (`del B[:pos]`, window `B`) and advancing an offset (`lo += pos`, window `B[lo:]`).  Any other shape
+    # is not decided (analysis error), never reported as a violation.
+    alias = {}
+    for w in walk_local(f.node):
+        if isinstance(w, ast.With):
+            for it in w.items:
+                if isinstance(it.context_expr, ast.Call) and dotted(it.context_expr.func) == 'memoryview' and it.context_expr.args and isinstance(it.context_expr.args[0], ast.Name) and isinstance(it.optional_vars, ast.Name):
+                    alias[it.optional_vars.id] = it.context_expr.args[0].id
+        if isinstance(w, ast.Assign) and isinstance(w.value, ast.Call) and dotted(w.value.func) == 'memoryview' and w.value.args and isinstance(w.value.args[0], ast.Name) and isinstance(w.targets[0], ast.Name):
+            alias[w.targets[0].id] = w.value.args[0].id
+    win = cut_calls[0].args[0] if cut_calls[0].args else None
+    if isinstance(win, ast.Name):
+        wbase, wlo = win.id, {}
+    elif isinstance(win, ast.Subscript) and isinstance(win.value, ast.Name) and isinstance(win.slice, ast.Slice) and win.slice.upper is None and win.slice.step is None and _lin(win.slice.lower) is not None:
+        wbase, wlo = win.value.id, _lin(win.slice.lower)
+    else:
+        raise AnalysisError('C10.R4: the window handed to next_cut is neither a named buffer nor a suffix B[lo:] of one')
+    buf = alias.get(wbase, wbase)
     for y in ys:
         yst = enclosing_stmt(y)
         v = y.value
-        okv = isinstance(v, ast.Call) and dotted(v.func) == 'bytes' and len(v.args) == 1 and isinstance(v.args[0], ast.Subscript) and isinstance(v.args[0].value, ast.Name) and v.args[0].value.id == buf and isinstance(v.args[0].slice, ast.Slice) and v.args[0].slice.lower is None and isinstance(v.args[0].slice.upper, ast.Name)
-        pos = v.args[0].slice.upper.id if okv else None
+        sl = v.args[0] if isinstance(v, ast.Call) and dotted(v.func) in ('bytes', 'bytearray') and len(v.args) == 1 else v
+        if not (isinstance(sl, ast.Subscript) and isinstance(sl.value, ast.Name) and isinstance(sl.slice, ast.Slice) and sl.slice.step is None):
+            raise AnalysisError(f'C10.R4: the emitted value `{src(v, 60)}` is not a slice of a named buffer')
+        copied = sl is not v or sl.value.id not in alias
+        lo, hi = _lin(sl.slice.lower), _lin(sl.slice.upper) if sl.slice.upper is not None else None
+        if lo is None or hi is None:
+            raise AnalysisError(f'C10.R4: the bounds of the emitted slice `{src(sl, 60)}` are not linear in locals')
+        length = _lin_sub(hi, lo)
+        pos = next(iter(length)) if len(length) == 1 and list(length.values()) == [1] and next(iter(length)) != '' else None
+        okv = alias.get(sl.value.id, sl.value.id) == buf and lo == wlo and pos is not None and copied
         block = _block(yst)
         nxt = block[block.index(yst) + 1] if yst in block and block.index(yst) + 1 < len(block) else None
-        okd = isinstance(nxt, ast.Delete) and len(nxt.targets) == 1 and isinstance(nxt.targets[0], ast.Subscript) and isinstance(nxt.targets[0].value, ast.Name) and nxt.targets[0].value.id == buf and isinstance(nxt.targets[0].slice, ast.Slice) and nxt.targets[0].slice.lower is None and isinstance(nxt.targets[0].slice.upper, ast.Name) and nxt.targets[0].slice.upper.id == pos
+        okd = False
+        if not wlo:
+            okd = isinstance(nxt, ast.Delete) and len(nxt.targets) == 1 and isinstance(nxt.targets[0], ast.Subscript) and isinstance(nxt.targets[0].value, ast.Name) and nxt.targets[0].value.id == buf and isinstance(nxt.targets[0].slice, ast.Slice) and nxt.targets[0].slice.lower is None and _lin(nxt.targets[0].slice.upper) == {pos: 1}
+        elif len(wlo) == 1 and list(wlo.values()) == [1] and '' not in wlo:
+            off = next(iter(wlo))
+            if isinstance(nxt, ast.AugAssign) and isinstance(nxt.op, ast.Add) and isinstance(nxt.target, ast.Name) and nxt.target.id == off:
+                okd = _lin(nxt.value) == {pos: 1}
+            elif isinstance(nxt, ast.Assign) and len(nxt.targets) == 1 and isinstance(nxt.targets[0], ast.Name) and nxt.targets[0].id == off:
+                okd = _lin(nxt.value) == {off: 1, pos: 1}
         ctx.check(
             okv and okd,
             'C10.R4',
             f'{func_label(f)}|emitted-prefix-is-removed-prefix',
             loc(f, yst),
-            f'yield bytes({buf}[:{pos}]) is immediately followed by del {buf}[:{pos}]',
-            f'the emitted chunk `{src(v, 50)}` and the bytes removed from the buffer (`{src(nxt, 50) if nxt is not None else "nothing"}`) are not the same prefix: bytes are lost or duplicated',
+            f'the emitted chunk is a copy of the first `{pos}` bytes of the window handed to next_cut and exactly those bytes are consumed next',
+            f'the emitted chunk `{src(v, 50)}` and the bytes consumed from the window `{src(win, 30)}` (`{src(nxt, 50) if nxt is not None else "nothing"}`) are not the same prefix: bytes are lost or duplicated',
         )
+        # the cut position is only trusted as far as slicing clamps it: the native chunker returns a forced cut
+        # computed from the (4-byte stepped) bounds, which for accepted bounds may exceed the bytes in the window.
+        if pos is not None:
+            arith = []
+            for n in walk_local(f.node):
+                if isinstance(n, ast.Name) and n.id == pos and isinstance(n.ctx, ast.Load):
+                    par = getattr(n, '_parent', None)
+                    if isinstance(par, ast.Slice) and par.lower is None and par.upper is n:
+                        continue  # B[:pos] clamps itself
+                    if isinstance(par, (ast.UnaryOp, ast.Compare, ast.If, ast.While, ast.BoolOp)) and not (isinstance(par, ast.UnaryOp) and isinstance(par.op, ast.USub)):
+                        continue
+                    if isinstance(par, ast.Call) and dotted(par.func) in ('min', 'bool'):
+                        continue
+                    arith.append(n)
+            clamps = [a for a in walk_local(f.node) if isinstance(a, ast.Assign) and isinstance(a.targets[0], ast.Name) and a.targets[0].id == pos and isinstance(a.value, ast.Call) and dotted(a.value.func) == 'min' and any(isinstance(c, ast.Call) and dotted(c.func) == 'len' for x in a.value.args for c in ast.walk(x))]
+            okc = not arith or (clamps and all(all(cfg.set_dominates(cfg.nodes_of(enclosing_stmt(clamps[0]), ('stmt', 'ok')), x) for x in cfg.nodes_of(enclosing_stmt(n), 'stmt')) for n in arith))
+            ctx.check(
+                bool(okc),
+                'C10.R4',
+                f'{func_label(f)}|cut-position-clamped',
+                loc(f, arith[0]) if arith else loc(f, yst),
+                f'`{pos}` is used only as the upper bound of prefix slices (which clamp it to the bytes present) or after min(.., len(..))',
+                f'`{pos}` enters offset arithmetic (`{src(enclosing_stmt(arith[0]), 50) if arith else ""}`) without being clamped to the bytes present: next_cut returns a forced cut derived from the 4-byte stepped bounds, '
+                'which for accepted bounds (min_length % 4 != 0, max_length < min_length rounded up) exceeds the window; the excess is then taken out of the next piece',
+            )
         # pos is the value returned by next_cut on this buffer
         asg = [a for a in walk_local(f.node) if isinstance(a, ast.Assign) and isinstance(a.targets[0], ast.Name) and a.targets[0].id == pos]
-        ctx.check(len(asg) == 1 and asg[0].value is cut_calls[0], 'C10.R4', f'{func_label(f)}|cut-from-native', loc(f, yst), f'`{pos}` is the result of next_cut({buf}, final)', f'`{pos}` is not (only) the value returned by next_cut')
+        ctx.check(bool(asg) and asg[0].value is cut_calls[0] and all(isinstance(a.value, ast.Call) and dotted(a.value.func) == 'min' for a in asg[1:]), 'C10.R4', f'{func_label(f)}|cut-from-native', loc(f, yst), f'`{pos}` is the result of next_cut({buf}, final)', f'`{pos}` is not (only) the value returned by next_cut')
         # R5: only a truthy cut reaches the yield
         guards = [i for i in walk_local(f.node) if isinstance(i, ast.If) and ((isinstance(i.test, ast.UnaryOp) and isinstance(i.test.op, ast.Not) and isinstance(i.test.operand, ast.Name) and i.test.operand.id == pos) or (isinstance(i.test, ast.Compare) and isinstance(i.test.left, ast.Name) and i.test.left.id == pos))]
         g = []
@@ -347,6 +410,29 @@ def _same_iteration(a, b):
     pa = [x for x in ancestors(a) if isinstance(x, (ast.While, ast.For))]
     pb = [x for x in ancestors(b) if isinstance(x, (ast.While, ast.For))]
     return bool(pa) and bool(pb) and pa[0] is pb[0] and a.lineno < b.lineno
+
+
+def _lin(e):
+    """linear form {name: coef, '': const} of an index expression, None if not linear in names"""
+    if e is None:
+        return {}
+    if isinstance(e, ast.Name):
+        return {e.id: 1}
+    if isinstance(e, ast.Constant) and isinstance(e.value, int) and not isinstance(e.value, bool):
+        return {'': e.value} if e.value else {}
+    if isinstance(e, ast.BinOp) and isinstance(e.op, (ast.Add, ast.Sub)):
+        a, b = _lin(e.left), _lin(e.right)
+        if a is None or b is None:
+            return None
+        return _lin_sub(a, b) if isinstance(e.op, ast.Sub) else _lin_sub(a, {k: -v for k, v in b.items()})
+    return None
+
+
+def _lin_sub(a, b):
+    out = dict(a)
+    for k, v in b.items():
+        out[k] = out.get(k, 0) - v
+    return {k: v for k, v in out.items() if v}
 
 
 def _block(stmt):
